@@ -61,7 +61,7 @@ theorem eq_refl (g : GConfig) : gconfigEq g g = true := by
       gAttrEq, plistEq_refl, fcgiEqDelegatesToGroup, List.lookup]
 
 theorem ne_self (g : GConfig) : gconfigNe g g = false := by
-  simp [gconfigNe, eq_refl]
+  simp [gconfigNe, gconfigEqOp, eq_refl]
 
 /-! ### diff_to_active -/
 
@@ -118,6 +118,13 @@ theorem removed_disjoint (new cur : List GConfig) (r : GConfig) (hr : r ∈ (dif
 theorem reread_changes_nothing (s : State) (parsed : Except String (List GConfig)) :
     (reloadConfig s parsed).2.active = s.active := by
   cases parsed <;> simp [reloadConfig]
+
+/-- **reread_installs_file.**  After a successful reread the configuration that addProcessGroup / update will use
+    is exactly the parsed file — not an earlier version that merely compares equal (AUTO matches any log file name
+    under config equality, so "equal" lists can differ in an option). -/
+theorem reread_installs_file (s : State) (new : List GConfig) :
+    (reloadConfig s (.ok new)).2.file = new := by
+  simp [reloadConfig, installParsed_eq]
 
 /-- **cant_reread_leaves_state.**  A file that cannot be parsed is answered CANT_REREAD and leaves every active
     group and the configuration last read as they were. -/
